@@ -288,7 +288,10 @@ def option_sets(rng, k):
     base = [{}, {'fill_value': 7}, {'fill_value': 2.7}, {'fills': {'X': -1.5}}, {'fills': {'K': 9, 'S': 'zz'}}, {'fill_value': 0, 'fills': {'B': True}},
             {'fills': {'NOPE': 1}}, {'fills': {'NOPE': 1}, 'strict': True}, {'fills': {'NOPE': 1}, 'obj_strict': True}, {'fills': {'X': 3}, 'strict': True},
             {'fills': {'NOPE': 1}, 'obj_strict': True, 'strict': False}, {'fills': {'status': 'Q', 'iterations': 5}}, {'fill_value': True}, {'fill_value': 'q'},
-            {'fill_value': 7, 'fills': {'X': None, 'K': 0}}, {'fill_value': 3, 'fills': {'B': False, 'S': '', 'K': None}}]
+            {'fill_value': 7, 'fills': {'X': None, 'K': 0}}, {'fill_value': 3, 'fills': {'B': False, 'S': '', 'K': None}},
+            # fills that compare (and hash) equal but are different values once written into a text or float variable
+            {'fills': {'S': True}}, {'fills': {'S': 1}}, {'fills': {'S': 1.0}}, {'fills': {'S': 0}}, {'fills': {'S': False}}, {'fills': {'S': 0.0, 'X': -0.0}},
+            {'fills': {'X': 0, 'S': -0.0}}, {'fills': {'X': False, 'S': np.float32(1)}}]
     return base if k is None else rng.sample(base, k)
 
 
